@@ -144,6 +144,14 @@ func (tc *typechecker) checkIdentifier(ident *ast.Identifier, used bool) *typeIn
 		tc.compilation.iteaToUsingCheck[ident.Name] = uc
 	}
 
+	// The type infos of the predeclared constants true and false are shared
+	// by all the compilations, while the type info of a constant expression is
+	// changed when the constant is implicitly converted: use a copy.
+	if ti.InUniverse() && ti.IsConstant() {
+		c := *ti
+		ti = &c
+	}
+
 	tc.compilation.typeInfos[ident] = ti
 	return ti
 }
